@@ -4,7 +4,7 @@ gen_doc(rng, ...) -> (text, features). Every output-producing feature of svgdx i
 hostile string alphabet is injected into every value flow that reaches the writer."""
 
 HOSTILE_ATOMS = [
-    "&", "<", ">", '"', "'", "--", "-->", "]]>", "<!--", "<![CDATA[", "&amp;", "&#38;", "&lt;", "&quot;",
+    "&", "<", ">", '"', "'", "--", "-->", "---", "--->", "-----", "]]>", "<!--", "<![CDATA[", "&amp;", "&#38;", "&lt;", "&quot;",
     "\t", "\n", "\r\n", " ", "  ", "\U0001F600", "é", "​", " ", "x" * 40, "a-b", "%", ";", ":",
     "\\", "\\n", "/", "=", "{", "}", "(", ")", "é", "日本", "`", "|", "~", "@", "^", "?>", "<?", "-",
 ]
@@ -64,7 +64,8 @@ def cdata_wrap(s):
 
 def comment_safe(s):
     """A string that may legally appear inside an XML comment in the INPUT."""
-    s = s.replace("--", "- -")
+    while "--" in s:
+        s = s.replace("--", "- -")
     if s.endswith("-"):
         s += " "
     return s
